@@ -64,7 +64,7 @@ def flav(rng, leafs_have_nan=False, dom="float"):
             "route": rng.choice(ROUTES_ANY if leafs_have_nan else ROUTES_DEF + ROUTES_ANY),
             "mat": rng.choice(MATS), "scalar": rng.choice(SCALARS),
             "vec": rng.choice(["list", "ndarray", "series", "tuple"]),
-            "lroute": rng.choice(["list", "frame", "series", "tuple", "ndarray", "short"])}
+            "lroute": rng.choice(["list", "frame", "series", "series_offset", "tuple", "ndarray", "short"])}
 
 
 def has_nan(leaf):
